@@ -90,6 +90,19 @@ STEADY_CONSTRUCTS = {
     "if_arm_applied_lambda": "fn dsp(){\n  let k = now\n  if (k % 2.0) { (| a | { a + k })(1.0) } else { (| a | { a - k })(2.0) }\n}\n",
     "tuple_from_applied_lambda": "fn dsp(){\n  let k = now\n  let (p, q) = (| a | { (a, a + k) })(1.0)\n  p + q\n}\n",
 }
+TREE = "type rec Tree = Leaf(float) | Node(Tree, Tree)\nfn total(t:Tree)->float{ match t { Leaf(v) => v, Node(l, r) => 1.0 } }\n"
+LIST = "type rec L = Nil | Cons(float, L)\n"
+# recursive variant values: steady on the VM (the WASM host keeps them: pinned fixtures type_recursive_*.mmm)
+STEADY_VM_ONLY = {"variant_flat_tree", "variant_nested_tree_shared", "variant_nested_tree_shared_twice", "variant_list_grown",
+                  "variant_list_one", "variant_in_function"}
+STEADY_CONSTRUCTS.update({
+    "variant_flat_tree": TREE + "fn dsp(){\n  let a = Node(Leaf(1.0), Leaf(2.0))\n  now\n}\n",
+    "variant_nested_tree_shared": TREE + "fn dsp(){\n  let a = Node(Leaf(1.0), Leaf(2.0))\n  let b = Node(a, Leaf(3.0))\n  now\n}\n",
+    "variant_nested_tree_shared_twice": TREE + "fn dsp(){\n  let a = Node(Leaf(1.0), Leaf(2.0))\n  let b = Node(a, a)\n  let c = Node(b, a)\n  now\n}\n",
+    "variant_list_grown": LIST + "fn dsp(){\n  let a = Cons(1.0, Nil)\n  let b = Cons(2.0, a)\n  let c = Cons(3.0, b)\n  now\n}\n",
+    "variant_list_one": LIST + "fn dsp(){\n  let a = Cons(now, Nil)\n  now\n}\n",
+    "variant_in_function": TREE + "fn build(x){\n  let a = Node(Leaf(x), Leaf(2.0))\n  let b = Node(a, Leaf(3.0))\n  x\n}\nfn dsp(){\n  build(now)\n}\n",
+})
 CLOSURE_TOKENS = ("|", "mk(", "apply(", "= dbl")
 
 
@@ -148,6 +161,8 @@ def run(tier):
             samples = sample_list(b, be)
             in_pinned_class = gen_flag[req["id"]] and creates_closures_in_dsp(req["src"])
             ask_steady = not (be == "vm" and in_pinned_class)
+            if be == "wasm" and str(req["id"]).startswith("steady:") and str(req["id"])[7:] in STEADY_VM_ONLY:
+                ask_steady = False
             rid = f"{req['id']}|{be}"
             records.append({"id": rid, "samples": samples, "steady": [N1 + 1, N2 + 1] if ask_steady else [0, 0]})
             meta[rid] = (case, key, be)
